@@ -55,7 +55,8 @@ def gen_names(ctx):
     for seed in (0, 1, 7, 10, 99, 100, 2**31 - 1, 2**31, 2**32, 2**63, 2**64 + 1, 10**20, 999132423):
         for fd in (False, True):
             ps.append(mk(seed=seed, w=2, l=1, fd=fd))
-    for (w, l, r) in ((1, 1, 1), (1, 10, 1), (10, 1, 2), (11, 12, 13), (3, 3, 6), (2, 100, 10), (100, 2, 99), (1, 1, 1000)):
+    for (w, l, r) in ((1, 1, 1), (1, 10, 1), (10, 1, 2), (11, 12, 13), (3, 3, 6), (2, 100, 10), (100, 2, 99), (1, 1, 1000),
+                      (1, 1, 1001), (1, 1, 1010), (1, 1, 1022)):       # the largest accepted maximum rewards: each has its own name
         for fd in (False, True):
             ps.append(mk(w=w, l=l, r=r, fd=fd))
     for _ in range(25 if ctx.quick else 2000):   # random whole-percent sets
